@@ -488,6 +488,9 @@ pub fn pass_topdown_validation(rec: &SessionRec, from: usize, sh_at_from: &Shado
     if let Some(last) = pre.last() {
       if last.consistent && pre.len() < decls.len() && aborted_at.is_none() {
         out.push(f("C02", "validation-stopped-early", last.at, format!("T{}: only {} of {} recorded dependencies were checked and all were consistent", t, pre.len(), decls.len())));
+        if first_exec.is_none() {
+          out.push(f("C09", "reused-without-asking-the-checker", last.at, format!("T{} was reused although dependency #{} ({}) was never submitted to its own checker: its consistency was decided by something else", t, pre.len() + 1, decls[pre.len()].render())));
+        }
       }
       if last.consistent && pre.len() == decls.len() {
         if let Some(e) = first_exec {
